@@ -201,6 +201,19 @@ def check_property(prop, tier, seed, timeout_s):
             violations.append((f"{qual.partition('::')[2]}/{kind}", path, True))
         else:
             undecided.append((f"{qual.partition('::')[2]}/{kind}", f"{msg} | hunt: {status}"))
+    # bounded stand-ins (labelled bounded, never counted as proved): functions of the cone that are not within the
+    # verifier's reach are exercised on the real code with their executable contract, on every run
+    standins = []
+    import re as _re
+    for b in spec.get("bounded", []):
+        status, path, text = hunt(b["oracle"], prop, seed, tier, "bounded:" + b["oracle"].partition("::")[2], b["what"])
+        m = _re.search(r"in (\d+) cases", text or "")
+        standins.append({"function": b["oracle"].partition("::")[2], "what": b["what"], "status": status,
+                         "cases": int(m.group(1)) if m else None, "label": "bounded (not a proof)"})
+        if status == "found":
+            violations.append(("bounded:" + b["oracle"].partition("::")[2], path, True))
+        elif status != "none":
+            undecided.append(("bounded:" + b["oracle"].partition("::")[2], f"stand-in did not run: {status} {text[-300:]}"))
     for n in vacuous:
         undecided.append((n, "vacuous: hypotheses at this reachability point are contradictory"))
     if not all_obls and not fn_errors:
@@ -236,7 +249,7 @@ def check_property(prop, tier, seed, timeout_s):
             "second_solver": ({"rechecked": sum(1 for o in all_obls if hasattr(o, "second")),
                                "agree": sum(1 for o in all_obls if getattr(o, "second", None) == "unsat")}
                               if tier == "thorough" else None),
-            "bounded_standins": spec.get("bounded", []),
+            "bounded_standins": standins,
             "not_decided": spec.get("not_decided", []),
             "known_findings_seen": known_seen,
             "undecided": [{"obligation": n, "why": w[:500]} for n, w in undecided],
